@@ -303,6 +303,23 @@ def _flatten(seq):
                         pass
 
 
+def same_line_zone(ctx):
+    pl = ctx.repo.func(PL)
+    res = resolver(ctx, pl, inline=False)
+    zp = next((p_.arg for p_ in pl.call_params if p_.arg in ('current_memzone', 'memzone')), None)
+    wl = [w for w in walk_no_nested(pl.node) if isinstance(w, ast.While)]
+    upd = [n for w in wl for n in ast.walk(w) if isinstance(n, ast.Assign) and unparse(n.targets[0]) == zp]
+    ok = len(upd) == 1 and unparse(upd[0].value) == 'line_obj.memory_zone'
+    why = '; '.join(unparse(u) for u in upd) or 'the zone parameter is never updated inside the statement loop'
+    if ok:
+        cl = facts_at(ctx, pl, upd[0], res)
+        ok = any(c == frozenset({('isinstance', 'line_obj', 'SetMemoryZoneLine', True)}) for c in cl)
+        why = describe_facts(cl)
+    ctx.check(ok, 'surface:zone-directive-same-line', pl.site(upd[0]) if upd else pl.site(),
+              'after a .memzone / .org statement the statements that follow on the same line are created in the zone it selects',
+              f'{why}: `.memzone lo .byte 1` puts the byte in the previously selected zone, unlike the two-line spelling')
+
+
 def c18_3(ctx):
     ctx.rule('C18.3', 'blank lines, comments, label placement and compound lines', 6)
     load = ctx.repo.func(LOAD)
@@ -343,6 +360,8 @@ def c18_3(ctx):
     ctx.check(ok, 'surface:label-consumes-only-its-name', lf.site(), 'a label in front of a statement consumes only its `name:` text; the statement is parsed next', lp)
     order = [unparse(c.func) for c in sorted([c for c in ast.walk(wl[0]) if isinstance(c, ast.Call) and unparse(c.func).endswith('.factory')], key=lambda c: c.lineno)] if wl else []
     ctx.check(order[:1] == ['LabelLine.factory'], 'surface:label-tried-first', pl.site(), 'a label is looked for before any other statement kind', str(order))
+    # a zone directive takes effect for the rest of its own line too (as it would on the following lines)
+    same_line_zone(ctx)
     from rules.c06 import c06_4
     c06_4(ctx)
 
@@ -357,6 +376,7 @@ def c18_scopes(ctx):
 RULES = [c18_1, c18_2, c18_3, c18_scopes]
 
 MUTANTS = [
+    V('c18-zone-directive-not-same-line', 'assembler/line_object/factory.py', "                    if isinstance(line_obj, SetMemoryZoneLine):\n                        # statements that follow on the same line are assembled in the zone just selected\n                        current_memzone = line_obj.memory_zone\n", "", 'C18.3'),
     V('c18-if-lhs-untrimmed', 'assembler/preprocessor/condition.py', "            self._lhs_expression = match.group(1).strip()\n", "            self._lhs_expression = match.group(1)\n", 'C18.2'),
     V('c18-if-rhs-untrimmed', 'assembler/preprocessor/condition.py', "match.group(5).strip()", "match.group(5)", 'C18.2'),
     V('c18-include-anchored', 'assembler/assembly_file.py', "([\\w\\.\\-\\_]+)(?:\\'|\\\")',", "([\\w\\.\\-\\_]+)(?:\\'|\\\")\\s*$',", 'C18.3'),
